@@ -12,7 +12,7 @@ use raft_log::codeq::OffsetSize;
 use raft_log::{DumpApi, RaftLog};
 use serde::{Deserialize, Serialize};
 
-use crate::core::{self, Chooser, EpisodeCfg, EpisodeOut, HEv};
+use crate::core::{self, Chooser, EpisodeCfg, EpisodeOut, Ev, HEv};
 use crate::model::{real_state, Cb, LogId, MState, Model, Vote, TT};
 use crate::ops::{Cfg, Op, Sched, Spec};
 use crate::rng::Rng;
@@ -823,6 +823,7 @@ impl<'a> Exec<'a> {
                 self.probe("quiesce");
             }
             Op::Readers { n, rounds } => self.do_readers(*n, *rounds),
+            Op::Contenders { .. } => {}
             _ => unreachable!(),
         }
     }
@@ -1053,6 +1054,208 @@ pub fn run_spec_in(spec: &Spec, or: &Oracles, root: &str, model: Model) -> RunOu
         caller_errors: ex.caller_errors,
         ops_done,
         model: ex.model,
+        root: root.to_string(),
+    }
+}
+
+// ------------------------------------------------------------------ C13: contenders (S3)
+
+/// Contender threads (standing in for processes: flock is per open file description) race to
+/// open, hold, write to, and drop the same directory. All invariants are checked on the trace.
+pub fn run_contenders(spec: &Spec, root: &str) -> RunOut {
+    use crate::ops::CAction;
+    fresh_dir(root);
+    core::begin(EpisodeCfg { root: root.to_string(), chooser: chooser_of(&spec.sched), faults: vec![], flush_batch: spec.flush_batch });
+    let scripts: Vec<Vec<CAction>> = match spec.ops.first() {
+        Some(Op::Contenders { scripts }) => scripts.clone(),
+        _ => vec![],
+    };
+    let appended: Arc<Mutex<Vec<(LogId, String)>>> = Arc::new(Mutex::new(vec![]));
+    let fid_ctr = Arc::new(std::sync::atomic::AtomicU32::new(1));
+    let cfg = spec.cfg.clone();
+    let mut hs = vec![];
+    for (k, script) in scripts.iter().enumerate() {
+        let script = script.clone();
+        let root = root.to_string();
+        let cfg = cfg.clone();
+        let appended = appended.clone();
+        let fid_ctr = fid_ctr.clone();
+        let who = k as u8;
+        hs.push(core::spawn_sim_thread(format!("C{k}"), move || {
+            let note = |what: String| core::ev(HEv::Contender { who, what });
+            for a in script {
+                for _ in 0..a.pause {
+                    core::sim().yield_point("contender_pause");
+                }
+                note("attempt".into());
+                if a.dump {
+                    let r = catch_unwind(AssertUnwindSafe(|| raft_log::Dump::<TT>::new(cfg.to_config(&root))));
+                    match r {
+                        Ok(Ok(d)) => {
+                            note("ok".into());
+                            let _ = catch_unwind(AssertUnwindSafe(|| d.write_to_string()));
+                            for _ in 0..a.hold {
+                                core::sim().yield_point("contender_hold");
+                            }
+                            note("dropbegin".into());
+                            drop(d);
+                            note("dropend".into());
+                        }
+                        Ok(Err(e)) => note(format!("err:{}", norm_err(&e))),
+                        Err(p) => note(format!("panic:{}", panic_msg(&*p))),
+                    }
+                } else {
+                    let r = catch_unwind(AssertUnwindSafe(|| RaftLog::<TT>::open(cfg.to_config(&root))));
+                    match r {
+                        Ok(Ok(mut rl)) => {
+                            note("ok".into());
+                            // what the owner sees must be what previous owners made durable
+                            let seen: Vec<(LogId, String)> = rl.read(0, u64::MAX).filter_map(|r| r.ok()).collect();
+                            let want = appended.lock().unwrap().clone();
+                            if seen != want {
+                                note(format!("state-mismatch: owner sees {} entries, previous owners flushed {}", seen.len(), want.len()));
+                            }
+                            if a.write {
+                                let next = rl.log_state().last().map(|l| l.1 + 1).unwrap_or(0);
+                                let id = (1u64, next);
+                                let payload = format!("c{who}:{next}");
+                                if rl.append([(id, payload.clone())]).is_ok() {
+                                    let fid = fid_ctr.fetch_add(1, std::sync::atomic::Ordering::Relaxed);
+                                    if rl.flush(Some(Cb::new(fid))).is_ok() && core::wait_ack(fid) == Some(true) {
+                                        appended.lock().unwrap().push((id, payload));
+                                    } else {
+                                        note("flush-not-acked".into());
+                                    }
+                                }
+                            }
+                            for _ in 0..a.hold {
+                                core::sim().yield_point("contender_hold");
+                            }
+                            note("dropbegin".into());
+                            drop(rl);
+                            note("dropend".into());
+                        }
+                        Ok(Err(e)) => note(format!("err:{}", norm_err(&e))),
+                        Err(p) => note(format!("panic:{}", panic_msg(&*p))),
+                    }
+                }
+            }
+        }));
+    }
+    // wait for all contenders (and the workers they spawned)
+    let mut idle_rounds = 0u32;
+    loop {
+        let alive = core::lock().threads.iter().skip(1).any(|t| t.alive);
+        if !alive {
+            break;
+        }
+        core::sim().progress();
+        if !core::sim().blocked("wait_contenders") {
+            idle_rounds += 1;
+            if idle_rounds > 100_000 {
+                eprintln!("HARNESS-ERROR: contenders never finish");
+                std::process::exit(2);
+            }
+        }
+    }
+    for h in hs {
+        let _ = core::bypass(|| h.join());
+    }
+    let ep = core::end();
+    // ---- invariants over the trace
+    let mut viol: Vec<Violation> = vec![];
+    let mut push = |class: String, detail: String| {
+        if !viol.iter().any(|v: &Violation| v.class == class) {
+            viol.push(Violation { prop: "C13".into(), class, detail, op_index: -1 });
+        }
+    };
+    let mut owner: Option<u8> = None;
+    let mut lock_holder: Option<u8> = None; // by thread index
+    let mut attempt_at: BTreeMap<u8, usize> = BTreeMap::new();
+    let mut probes: BTreeMap<String, u64> = BTreeMap::new();
+    let tid_of = |who: u8| ep.thread_names.iter().position(|n| *n == format!("C{who}")).unwrap_or(255) as u8;
+    let mut lock_free_since: usize = 0;
+    for (pos, e) in ep.trace.iter().enumerate() {
+        match e {
+            Ev::Fs(f) if f.file == crate::shadow::LOCK => match f.op {
+                crate::core::FsOp::Flock if f.res >= 0 => lock_holder = Some(f.tid),
+                crate::core::FsOp::Flock => {
+                    *probes.entry("lock_refusals".into()).or_default() += 1;
+                    if lock_holder.is_none() {
+                        push("lock-refused-while-free".into(), format!("flock failed at trace position {pos} although nobody held the lock (free since {lock_free_since})"));
+                    }
+                }
+                crate::core::FsOp::Funlock | crate::core::FsOp::Close if lock_holder == Some(f.tid) => {
+                    lock_holder = None;
+                    lock_free_since = pos;
+                }
+                _ => {}
+            },
+            Ev::H(HEv::Contender { who, what }) => {
+                match what.as_str() {
+                    "attempt" => {
+                        attempt_at.insert(*who, pos);
+                    }
+                    "ok" => {
+                        *probes.entry("opens_ok".into()).or_default() += 1;
+                        if let Some(o) = owner {
+                            push("two-owners".into(), format!("contender C{who} opened the directory while C{o} still owned it"));
+                        }
+                        owner = Some(*who);
+                    }
+                    "dropbegin" => {
+                        if owner == Some(*who) {
+                            owner = None;
+                        }
+                    }
+                    "dropend" => {}
+                    w if w.starts_with("err:") => {
+                        *probes.entry("opens_refused".into()).or_default() += 1;
+                        let t = tid_of(*who);
+                        let from = attempt_at.get(who).copied().unwrap_or(0);
+                        // a refused open must not have modified any chunk file
+                        for e2 in &ep.trace[from..pos] {
+                            if let Ev::Fs(f) = e2 {
+                                if f.tid == t && f.file != crate::shadow::LOCK && matches!(f.op, crate::core::FsOp::Write | crate::core::FsOp::Ftruncate | crate::core::FsOp::Unlink | crate::core::FsOp::Create) {
+                                    push(format!("refused-open-mutated:{:?}", f.op), format!("contender C{who}'s open failed ({w}) after it did {:?} on {}", f.op, f.file));
+                                }
+                            }
+                        }
+                        if !w.contains("WouldBlock") {
+                            push(format!("open-failed:{}", w.trim_start_matches("err:").split(':').take(2).collect::<Vec<_>>().join(":")), format!("contender C{who}: open failed with {w} (not a lock refusal) in a fault-free run"));
+                        } else {
+                            // refused although the directory was free for the whole attempt?
+                            let held_during = ep.trace[from..pos].iter().any(|e2| matches!(e2, Ev::Fs(f) if f.file == crate::shadow::LOCK && f.op == crate::core::FsOp::Flock && f.res < 0 && f.tid == t));
+                            if !held_during {
+                                push("refused-without-lock-attempt".into(), format!("contender C{who}: open refused with WouldBlock but it never failed a flock"));
+                            }
+                        }
+                    }
+                    w if w.starts_with("panic:") => push("open-panic".into(), format!("contender C{who}: {w}")),
+                    w if w.starts_with("state-mismatch") => push("owner-sees-wrong-state".into(), format!("contender C{who}: {w}")),
+                    w if w.starts_with("flush-not-acked") => push("owner-flush-not-acked".into(), format!("contender C{who}: its flush was not acknowledged")),
+                    _ => {}
+                }
+            }
+            _ => {}
+        }
+    }
+    if probes.get("opens_ok").copied().unwrap_or(0) > 0 && probes.get("opens_refused").copied().unwrap_or(0) > 0 {
+        probes.insert("runs_with_both_ok_and_refused".into(), 1);
+    }
+    RunOut {
+        ep,
+        violations: viol,
+        aborted: None,
+        records: vec![],
+        flushes: vec![],
+        quiescent: vec![],
+        opens: vec![],
+        probes,
+        family_lower: false,
+        caller_errors: 0,
+        ops_done: 1,
+        model: Model::default(),
         root: root.to_string(),
     }
 }
